@@ -62,6 +62,9 @@ def parse_operand(o):
     m = re.fullmatch(r"(?:0)?\((AX|BX|CX|DX|SI|DI)\)", o)
     if m:
         return ("mem", m.group(1))
+    m = re.fullmatch(r"(\d+)\((AX|BX|CX|DX|SI|DI)\)", o)
+    if m and int(m.group(1)) != 0:
+        return ("disp", int(m.group(1)), m.group(2))
     m = re.fullmatch(r"(\w+)\+(\d+)\(FP\)", o)
     if m:
         return ("arg", m.group(1), int(m.group(2)))
@@ -190,6 +193,10 @@ def extract_asm(text):
             i = ins("xchg", d=ops[0][1], s=ops[1][1], w=w)
         elif base == "TEST" and w in (4, 8) and kinds == ("reg", "reg") and ops[0][1] == ops[1][1]:
             i = ins("test", d=ops[0][1], w=w)
+        elif base == "LEA" and w in (4, 8) and kinds == ("disp", "reg") and ops[0][1] <= 3:
+            i = ins("lea", d=ops[1][1], s=ops[0][2], v=ops[0][1], w=w)
+        elif base == "TEST" and w in (4, 8) and kinds == ("imm", "reg") and ops[0][1] == 1:
+            i = ins("testi", d=ops[1][1], v=1, w=w)
         elif base == "CMP" and w in (4, 8) and kinds == ("reg", "imm"):
             i = ins("cmpi", d=ops[0][1], v=small(ops[1][1]), w=w)
         elif base in ("CMP", "TEST") and w in (4, 8) and kinds == ("reg", "reg"):
@@ -243,7 +250,7 @@ def func_body(src, name):
 
 
 # ---- a compiler for the three method bodies: statements over sync/atomic operations on l.state -------------
-TOKEN = re.compile(r"\s*(?:(\n)|([A-Za-z_][\w.]*)|(0x[0-9a-fA-F]+|\d+)|(==|!=|:=|&&|\|\||[(){},;&=!^]))", re.S)
+TOKEN = re.compile(r"\s*(?:(\n)|([A-Za-z_][\w.]*)|(0x[0-9a-fA-F]+|\d+)|(==|!=|:=|&&|\|\||[(){},;&=!^+]))", re.S)
 
 
 def tokenize(body):
@@ -339,7 +346,11 @@ class GoCompiler:
         self.take("p", "&")
         self.take("id", "l.state")
 
-    # value expression -> register name holding it
+    def temp(self):
+        self.ntemp = getattr(self, "ntemp", 0) + 1
+        return ("DX", "SI", "DI")[self.ntemp % 3]
+
+    # value expression -> register name holding it (atomics deliver in AX, locals live in BX / CX)
     def value(self):
         tk = self.take("id")
         name = tk[1]
@@ -349,28 +360,63 @@ class GoCompiler:
             self.take("p", ",")
             v = self.num()
             self.take("p", ")")
-            self.emit("gswap", d="BX", v=v)
-            return "BX"
-        if name == "atomic.LoadUint32":
+            self.emit("gswap", d="AX", v=v)
+            r = "AX"
+        elif name == "atomic.LoadUint32":
             self.take("p", "(")
             self.lockaddr()
             self.take("p", ")")
-            self.emit("gload", d="BX")
-            return "BX"
-        if name == "atomic.AddUint32":
+            self.emit("gload", d="AX")
+            r = "AX"
+        elif name == "atomic.AddUint32":
             self.take("p", "(")
             self.lockaddr()
             self.take("p", ",")
             v = self.delta()
             self.take("p", ")")
-            self.emit("gadd", d="BX", v=v)
-            return "BX"
-        if name == "l.state":
-            self.emit("gload", d="BX")
-            return "BX"
-        if name in self.vars:
-            return self.vars[name]
-        raise ValueError("expression not understood: " + name)
+            self.emit("gadd", d="AX", v=v)
+            r = "AX"
+        elif name == "l.state":
+            self.emit("gload", d="AX")
+            r = "AX"
+        elif name in self.vars:
+            r = self.vars[name]
+        else:
+            raise ValueError("expression not understood: " + name)
+        return self.suffix(r)
+
+    def suffix(self, r):
+        """r & 1   /   r + n"""
+        if self.peek() == ("p", "&") and self.peek(1)[0] in ("num", "id") and self.peek(1)[1] != "l.state":
+            self.take()
+            if self.raw() != 1:
+                raise ValueError("bit mask other than 1")
+            t = self.temp()
+            self.emit("andi", d=t, s=r, v=1)
+            return t
+        if self.peek() == ("p", "+"):
+            self.take()
+            n = self.raw()
+            if n > 3:
+                raise ValueError("addend outside the modelled range 0..3")
+            t = self.temp()
+            self.emit("lea", d=t, s=r, v=n)
+            return t
+        return r
+
+    def operand(self):
+        """argument of a store / compare-and-swap: ("imm", class) or ("reg", name)"""
+        tk = self.peek()
+        if tk[0] == "num" or (tk[0] == "id" and (tk[1] in GOCONSTS or tk[1] == "uint32")):
+            return ("imm", self.num())
+        return ("reg", self.value())
+
+    def inreg(self, o):
+        if o[0] == "reg":
+            return o[1]
+        t = self.temp()
+        self.emit("movi", d=t, v=o[1])
+        return t
 
     # condition -> sense: after the emitted code, the condition is TRUE iff (Z == sense)
     def cond(self):
@@ -389,11 +435,15 @@ class GoCompiler:
             self.take("p", "(")
             self.lockaddr()
             self.take("p", ",")
-            old = self.num()
+            old = self.operand()
             self.take("p", ",")
-            new = self.num()
+            new = self.operand()
             self.take("p", ")")
-            self.emit("gcas", v=old, to=new)
+            if old[0] == "imm" and new[0] == "imm":
+                self.emit("gcas", v=old[1], to=new[1])
+            else:
+                ro = self.inreg(old)
+                self.emit("gcasr", d=ro, s=self.inreg(new))
             return True
         r = self.value()
         op = self.take("p")[1]
@@ -444,14 +494,21 @@ class GoCompiler:
             self.take("p", "(")
             self.lockaddr()
             self.take("p", ",")
-            v = self.num()
+            o = self.operand()
             self.take("p", ")")
-            self.emit("gastore", v=v)
+            if o[0] == "imm":
+                self.emit("gastore", v=o[1])
+            else:
+                self.emit("gastorer", s=o[1])
             return
         if tk == ("id", "l.state") and self.peek(1) == ("p", "="):
             self.take()
             self.take()
-            self.emit("gstore", v=self.num())
+            o = self.operand()
+            if o[0] == "imm":
+                self.emit("gstore", v=o[1])
+            else:
+                self.emit("gstorer", s=o[1])
             return
         if tk == ("id", "archAcquireSpinlock"):
             self.take()
@@ -460,7 +517,7 @@ class GoCompiler:
             self.take("p", ",")
             n = self.raw()
             self.take("p", ")")
-            self.emit("tail", v=min(n, 3))
+            self.emit("tail", v=min(n, 2))       # the spin budget only matters as "runs out now / later"
             return
         if tk[0] == "id" and tk[1] in ("atomic.SwapUint32", "atomic.CompareAndSwapUint32", "atomic.LoadUint32", "atomic.AddUint32"):
             if tk[1] == "atomic.CompareAndSwapUint32":
@@ -471,6 +528,13 @@ class GoCompiler:
         raise ValueError("statement not understood at %r" % (tk[1],))
 
     def stmt(self):
+        if self.peek() == ("id", "for") and self.peek(1) == ("p", "{"):
+            self.take()
+            top = self.label()
+            self.place(top)
+            self.block()
+            self.code.append({"op": "jmp", "d": "AX", "s": "AX", "v": 0, "to": top, "w": 4})
+            return
         if self.accept("if"):
             # optional init statement
             j, depth, has_init = self.i, 0, False
@@ -525,7 +589,7 @@ class GoCompiler:
             raise ValueError("trailing tokens: %r" % (self.peek()[1],))
         if not self.boolean:
             self.emit("ret")
-        elif not self.code or self.code[-1].get("op") not in ("rett", "retf"):
+        elif not self.code or self.code[-1].get("op") not in ("rett", "retf", "jmp"):
             raise ValueError("boolean method can fall off its end")
         return self.code
 
